@@ -128,12 +128,6 @@ fn exchange_once(ctx_rc: &crate::harness::SharedCtx, prefix: &str, reuse: Option
         challenge[20] = (challenge[20] & !0x01) | 0x02;
         ctx_rc.borrow_mut().probe("oem_negotiated");
     }
-    if ctx_rc.borrow_mut().chance("server_declines_key_exchange", 1, 10) {
-        // NTLMSSP_NEGOTIATE_KEY_EXCH is the server's to grant: without it the session key is the key exchange key
-        // and EncryptedRandomSessionKey stays empty (MS-NLMP 3.1.5.1.2)
-        challenge[23] &= !0x40;
-        ctx_rc.borrow_mut().probe("key_exchange_declined");
-    }
     if ctx_rc.borrow_mut().chance("domain_target", 1, 5) {
         // the authentication target is a domain, not a stand-alone server (NTLMSSP_TARGET_TYPE_DOMAIN)
         challenge[22] = (challenge[22] & !0x02) | 0x01;
